@@ -2284,7 +2284,13 @@ FROM (
                 return quote_name(v_name)
             return vp_group_sql_windowed(v_rule, quote_name(v_name), vp_over_clause)
 
-        name_override = "int_var" if op == tokens.COUNT else None
+        # count over a single measure is renamed to int_var; with several measures each one
+        # keeps its own name (same rule as Analytic.validate)
+        name_override = None
+        if op == tokens.COUNT:
+            operand_ds = self._get_dataset_structure(node.operand)
+            if operand_ds is None or len(operand_ds.get_measures_names()) <= 1:
+                name_override = "int_var"
         result = self._apply_measures(
             node.operand, _analytic_expr, name_override, viral_expr_fn=_viral_expr
         )
